@@ -399,7 +399,7 @@ func (a *c18) r1() {
 type c18flag struct {
 	obj     types.Object
 	isField bool
-	atomic  bool // written through sync/atomic (no mutex needed, but then never plainly)
+	atomic  bool                 // written through sync/atomic (no mutex needed, but then never plainly)
 	users   map[*types.Func]bool // field form: package functions that mention the field
 }
 
